@@ -161,3 +161,39 @@ func VerifC01_output_hash_identity() {
 	sym.Assert(sym.Iff(same, sym.StrEq(t1.OutputHash, t2.OutputHash)), "C01.dep.output-hash-identifies-paths-bytes-and-modes")
 	sym.Reach("C01.dep.output-hash-identity")
 }
+
+// A bin output is executable after a clean build (grog marks it, whatever mode the command left);
+// a later build that restores it from the cache must leave it executable as well.
+func VerifC01_bin_output_restored_executable() {
+	w := newWorld()
+	cmdModel["build-tool"] = &cmdBehaviour{writes: map[string]string{"p/tool.sh": "#!/bin/sh"}} // written 0644
+	mk := func() *model.Target {
+		t := fileTarget("tool", "build-tool")
+		t.BinOutput = model.NewOutput("file", "tool.sh")
+		return t
+	}
+	isExec := func() bool {
+		info, err := os.Stat(wsPath("p/tool.sh"))
+		return err == nil && info.Mode()&0111 != 0
+	}
+	t1 := mk()
+	p1 := w.newProcess(true, config.LoadOutputsAll, t1)
+	_, err := p1.run(w.ctx, t1)
+	sym.Assert(err == nil && isExec(), "C01.bin.executable-after-clean-build")
+	switch sym.Choice("workspace_before_second_build", 3) {
+	case 0:
+		_ = os.Remove(wsPath("p/tool.sh"))
+	case 1:
+		_ = os.Remove(wsPath("p/tool.sh"))
+		_ = os.WriteFile(wsPath("p/tool.sh"), []byte("edited by hand"), 0644)
+	}
+	t2 := mk()
+	p2 := w.newProcess(true, modeOf(sym.Choice("mode", 2)), t2)
+	res, err2 := p2.run(w.ctx, t2)
+	sym.Assert(err2 == nil && res == dag.CacheHit, "C01.bin.second-build-is-a-hit")
+	if modeOf(sym.Choice("mode", 2)) == config.LoadOutputsAll {
+		got, ok := readWS("p/tool.sh")
+		sym.Assert(ok && got == "#!/bin/sh" && isExec(), "C01.bin.restored-bin-output-is-executable")
+	}
+	sym.Reach("C01.bin")
+}
